@@ -780,11 +780,15 @@ pub fn classify_hang(rep: &mut Report, gdb_text: &str, what: &str) {
 // ------------------------------------------------------------------------------------------ leg 2b: replacement storm
 
 /// One writer replaces the holder of a replaceable and of a parameterised address thousands of times while reader
-/// threads hammer every lookup that can see those addresses. Online monitor (per reader thread): each address is
-/// occupied in every committed state, by exactly one event, and the holders' timestamps increase along the commit
-/// order - so a lookup never answers "nothing there", never returns two events of one address, and (real time: the
-/// previous answer was already returned) never returns an older holder than this thread has seen before. This opens
-/// windows that no pause point covers (e.g. between two snapshots taken inside one lookup).
+/// threads hammer every lookup that can see those addresses. Online monitor: each address is occupied in every
+/// committed state, by exactly one event, and the holders' timestamps increase along the commit order - so a lookup
+/// never answers "nothing there", never returns two events of one address, and never returns a holder older than
+/// the newest one whose store call HAD ALREADY RETURNED when the lookup began (real time). This opens windows that
+/// no pause point covers (e.g. between two snapshots taken inside one lookup).
+///
+/// Deliberately NOT demanded: that successive lookups of one thread never go back in time. LMDB does not provide
+/// that while a commit is in progress (a read transaction can see commit N+1 and the next one commit N; `pvmon
+/// lmdb-probe` shows it on a bare LMDB table), and the property only asks for "the state after some prefix".
 pub fn leg_storm(rep: &mut Report, args: &Args) {
     let rounds = if args.thorough() { 40 } else { 3 };
     let replacements = if args.thorough() { 4000u64 } else { 1500 };
@@ -815,12 +819,18 @@ pub fn leg_storm(rep: &mut Report, args: &Args) {
         let stop = Arc::new(AtomicBool::new(false));
         let bad: Arc<Mutex<Vec<String>>> = Arc::new(Mutex::new(vec![]));
         let lookups = Arc::new(AtomicU64::new(0));
+        let went_back = Arc::new(AtomicU64::new(0));
+        // timestamp of the newest holder whose store call has returned, per address
+        let returned_r = Arc::new(AtomicU64::new(1000));
+        let returned_p = Arc::new(AtomicU64::new(1000));
         let mut readers = vec![];
         for t in 0..6usize {
             let store = store.clone();
             let stop = stop.clone();
             let bad = bad.clone();
             let lookups = lookups.clone();
+            let went_back = went_back.clone();
+            let (returned_r, returned_p) = (returned_r.clone(), returned_p.clone());
             let (ar, ap) = (to_addr(&addr_r), to_addr(&addr_p));
             let f_r = SemFilter { authors: vec![a], kinds: vec![10002], ..SemFilter::empty() }.to_owned().unwrap();
             let f_p = SemFilter { authors: vec![a], kinds: vec![30023], tags: vec![("d".into(), vec!["slot".into()])], ..SemFilter::empty() }.to_owned().unwrap();
@@ -828,51 +838,48 @@ pub fn leg_storm(rep: &mut Report, args: &Args) {
             readers.push(std::thread::spawn(move || {
                 let mut seen_r = 0u64;
                 let mut seen_p = 0u64;
-                let mut note = |what: String| {
+                let note = |what: String| {
                     let mut b = bad.lock().unwrap();
                     if b.len() < 5 {
                         b.push(what);
                     }
                 };
+                let mut judge = |nm: &str, ts: u64, floor: u64, seen: &mut u64| {
+                    if ts < floor {
+                        note(format!("{nm} returned the holder of time {ts} although the store of the holder of time {floor} had returned before the lookup began"));
+                    }
+                    if ts < *seen {
+                        let _ = went_back.fetch_add(1, Ordering::Relaxed); // tolerated, see above
+                    }
+                    *seen = (*seen).max(ts);
+                };
                 let mut k = 0u64;
                 while !stop.load(Ordering::Relaxed) {
                     k += 1;
                     lookups.fetch_add(1, Ordering::Relaxed);
+                    let (floor_r, floor_p) = (returned_r.load(Ordering::SeqCst), returned_p.load(Ordering::SeqCst));
                     match (k + t as u64) % 5 {
                         0 => match store.find_replaceable_event(ar.author, ar.kind) {
-                            Ok(Some(e)) => {
-                                let ts = e.created_at().as_u64();
-                                if ts < seen_r {
-                                    note(format!("find_replaceable_event returned the holder of time {ts} after this thread had already seen {seen_r}"));
-                                }
-                                seen_r = seen_r.max(ts);
-                            }
+                            Ok(Some(e)) => judge("find_replaceable_event", e.created_at().as_u64(), floor_r, &mut seen_r),
                             Ok(None) => note("find_replaceable_event: the occupied address read as empty".into()),
                             Err(e) => note(format!("find_replaceable_event failed: {e}")),
                         },
                         1 => match store.find_parameterized_replaceable_event(&ap) {
-                            Ok(Some(e)) => {
-                                let ts = e.created_at().as_u64();
-                                if ts < seen_p {
-                                    note(format!("find_parameterized_replaceable_event returned the holder of time {ts} after this thread had already seen {seen_p}"));
-                                }
-                                seen_p = seen_p.max(ts);
-                            }
+                            Ok(Some(e)) => judge("find_parameterized_replaceable_event", e.created_at().as_u64(), floor_p, &mut seen_p),
                             Ok(None) => note("find_parameterized_replaceable_event: the occupied address read as empty".into()),
                             Err(e) => note(format!("find_parameterized_replaceable_event failed: {e}")),
                         },
                         2 | 3 => {
-                            let (f, seen, nm) = if (k + t as u64) % 5 == 2 { (&f_r, &mut seen_r, "author+kind query of the replaceable address") } else { (&f_p, &mut seen_p, "author+kind+#d query of the parameterised address") };
+                            let repl = (k + t as u64) % 5 == 2;
+                            let (f, nm) = if repl { (&f_r, "author+kind query of the replaceable address") } else { (&f_p, "author+kind+#d query of the parameterised address") };
                             match store.find_events(f, true, 0, 0, |_| ScreenResult::Match) {
                                 Ok((evs, _)) => {
                                     if evs.len() != 1 {
                                         note(format!("{nm} returned {} events (exactly one event holds the address in every committed state)", evs.len()));
+                                    } else if repl {
+                                        judge(nm, evs[0].created_at().as_u64(), floor_r, &mut seen_r);
                                     } else {
-                                        let ts = evs[0].created_at().as_u64();
-                                        if ts < *seen {
-                                            note(format!("{nm} returned the holder of time {ts} after this thread had already seen {}", *seen));
-                                        }
-                                        *seen = (*seen).max(ts);
+                                        judge(nm, evs[0].created_at().as_u64(), floor_p, &mut seen_p);
                                     }
                                 }
                                 Err(e) => note(format!("{nm} failed: {e}")),
@@ -894,9 +901,15 @@ pub fn leg_storm(rep: &mut Report, args: &Args) {
         }
         let mut stored = 0u64;
         for i in 0..replacements {
-            let e = if i % 2 == 0 { mk(&mut rng, 0, 10002, 1001 + i, vec![]) } else { mk(&mut rng, 0, 30023, 1001 + i, vec![vec!["d".into(), "slot".into()]]) };
+            let repl = i % 2 == 0;
+            let e = if repl { mk(&mut rng, 0, 10002, 1001 + i, vec![]) } else { mk(&mut rng, 0, 30023, 1001 + i, vec![vec!["d".into(), "slot".into()]]) };
             if store.store_event(&pocket_types::OwnedEvent(e.bytes.clone())).is_ok() {
                 stored += 1;
+                if repl {
+                    returned_r.store(1001 + i, Ordering::SeqCst);
+                } else {
+                    returned_p.store(1001 + i, Ordering::SeqCst);
+                }
             }
         }
         stop.store(true, Ordering::Relaxed);
@@ -907,6 +920,7 @@ pub fn leg_storm(rep: &mut Report, args: &Args) {
         rep.count("storm_rounds");
         rep.count_n("storm_replacements", stored);
         rep.count_n("storm_concurrent_lookups", lookups.load(Ordering::Relaxed));
+        rep.count_n("storm_lookups_older_than_an_earlier_one_of_the_same_thread(tolerated: commit in progress)", went_back.load(Ordering::Relaxed));
         let b = bad.lock().unwrap();
         if !b.is_empty() {
             rep.finding("storm:lookup-saw-no-committed-state", &format!("round {round}, {} replacements against {} concurrent lookups: {}", stored, lookups.load(Ordering::Relaxed), b.join(" | ")), json!({"kind":"storm","round":round}));
@@ -1427,4 +1441,72 @@ pub fn replay(v: &serde_json::Value, rep: &mut Report, args: &Args) {
     for f in r.findings {
         rep.finding_for(&f.prop, &f.signature, &f.detail, f.replay);
     }
+}
+
+// ------------------------------------------------------------------------------------------ LMDB monotonicity probe
+/// Diagnostic (not a check): the same access pattern as the replacement storm directly on LMDB through heed, with the
+/// environment flags pocket-db uses: one writer replaces the single key of a table (delete K(n-1), put K(n), commit),
+/// reader threads open a read transaction each time and read the first key. Does a reader ever see n go backwards?
+pub fn lmdb_probe(args: &Args) {
+    use pocket_db::heed::types::Bytes;
+    use pocket_db::heed::{Database, EnvFlags, EnvOpenOptions};
+    let dir = workdir().join("lmdb_probe");
+    let _ = std::fs::remove_dir_all(&dir);
+    std::fs::create_dir_all(&dir).unwrap();
+    let notls = args.get_str("flags", "pocket") == "pocket";
+    let mut b = EnvOpenOptions::new();
+    unsafe {
+        if notls {
+            let _ = b.flags(EnvFlags::NO_TLS | EnvFlags::NO_SYNC | EnvFlags::NO_META_SYNC);
+        } else {
+            let _ = b.flags(EnvFlags::NO_TLS);
+        }
+    }
+    let _ = b.max_dbs(4).map_size(1 << 30);
+    let env = unsafe { b.open(&dir).unwrap() };
+    let mut w = env.write_txn().unwrap();
+    let db: Database<Bytes, Bytes> = env.database_options().types::<Bytes, Bytes>().name("t").create(&mut w).unwrap();
+    db.put(&mut w, &0u64.to_be_bytes(), b"v").unwrap();
+    w.commit().unwrap();
+    let stop = Arc::new(AtomicBool::new(false));
+    let bad = Arc::new(AtomicU64::new(0));
+    let reads = Arc::new(AtomicU64::new(0));
+    let mut hs = vec![];
+    for _ in 0..6 {
+        let (env, stop, bad, reads) = (env.clone(), stop.clone(), bad.clone(), reads.clone());
+        hs.push(std::thread::spawn(move || {
+            let mut seen = 0u64;
+            while !stop.load(Ordering::Relaxed) {
+                let r = env.read_txn().unwrap();
+                let mut n_keys = 0;
+                let mut first = 0u64;
+                for it in db.iter(&r).unwrap() {
+                    let (k, _) = it.unwrap();
+                    if n_keys == 0 {
+                        first = u64::from_be_bytes(k.try_into().unwrap());
+                    }
+                    n_keys += 1;
+                }
+                drop(r);
+                reads.fetch_add(1, Ordering::Relaxed);
+                if n_keys != 1 || first < seen {
+                    bad.fetch_add(1, Ordering::Relaxed);
+                    eprintln!("ANOMALY keys={n_keys} first={first} seen={seen}");
+                }
+                seen = seen.max(first);
+            }
+        }));
+    }
+    let n = args.get_u64("n", 300_000);
+    for i in 1..=n {
+        let mut w = env.write_txn().unwrap();
+        let _ = db.delete(&mut w, &(i - 1).to_be_bytes()).unwrap();
+        db.put(&mut w, &i.to_be_bytes(), &vec![7u8; 200]).unwrap();
+        w.commit().unwrap();
+    }
+    stop.store(true, Ordering::Relaxed);
+    for h in hs {
+        let _ = h.join();
+    }
+    println!("lmdb_probe: {} commits, {} reads, {} anomalies", n, reads.load(Ordering::Relaxed), bad.load(Ordering::Relaxed));
 }
